@@ -90,3 +90,32 @@ type WideIn struct {
 	Widths
 	Tail string `json:"tail"`
 }
+
+// Meta and Audit are embedded by EmbTagged.
+type Meta struct {
+	Rev  int
+	Note string `json:"note,omitempty"`
+}
+
+// Audit is embedded through a pointer.
+type Audit struct {
+	By string
+	At int64
+}
+
+// EmbTagged embeds structs and a pointer that CARRY json tags: an option only, a name, omitempty.
+type EmbTagged struct {
+	ID     int
+	Meta   `json:",inline"`
+	*Audit `json:"audit"`
+	Leaf   `json:",omitempty"`
+	Name   string
+}
+
+// EmbTaggedP is the same by pointer for all, with a name tag on a by-value struct.
+type EmbTaggedP struct {
+	*Meta  `json:",inline"`
+	Audit  `json:"trail"`
+	*Leaf  `json:"leaf,omitempty"`
+	Weight float64
+}
